@@ -58,6 +58,7 @@ def showUdp (s : UdpSt) : String :=
   srv-tcp <unit>…            → ok out=<n> closeReq=<n> accepted=<n> sessions=<n> closed=<0|1> drain=<0|1> recv=<none|u>   (tcpRun from the fresh state)
   srv-tcp-valid <unit>       → ok <0|1>                                                                      (TcpUnit.validOpen)
   srv-udp <unit>…            → ok out=<n> closeReq=<n> accepted=<n> sessions=<n>                              (udpRun from the empty state)
+  srv-udp-from <sid,…|-> <unit>… → the same from a state in which the given sessions already exist (`sessions` = new ones)
   srv-udp-eff <unit>         → ok <0|1>                                                                      (UdpUnit.effective)
   srv-udp-body <rem> <proto> <payloadLen> <prefixLen> <suffixLen> <payloadOpens> → ok <0|1>                  (udpBodyOk)
   srv-classify <proto> <sid> → ok <isSession> <isData> <isAck> <isLowEntropy> <clientToServer> <validNewSession>
@@ -78,6 +79,16 @@ def handler : IO Handler := pure fun op args => pure <|
     match args.mapM parseUdp with
     | some us => some s!"ok {showUdp (udpRun {} us)}"
     | none => some "bad-op"
+  | "srv-udp-from" =>
+    match args with
+    | sids :: rest =>
+      let ids := if sids == "-" then some [] else (sids.splitOn ",").mapM String.toNat?
+      match ids, rest.mapM parseUdp with
+      | some ids, some us =>
+        let s := udpRun { sessions := ids } us
+        some s!"ok {showUdp { s with sessions := s.sessions.take (s.sessions.length - ids.length) }}"
+      | _, _ => some "bad-op"
+    | [] => some "bad-op"
   | "srv-udp-eff" =>
     match args with
     | [t] => match parseUdp t with
